@@ -342,6 +342,32 @@ def run(tier, seed):
             else:
                 pres += g
         process_pipeline(R, pres, mlref, mismatches)
+        # history independence: several symbol-heavy modules through fresh stacks in ONE process vs each in a fresh process
+        hk = 3 if tier == 'quick' else 6
+        shared = runner_batch([{'cmd': 'history', 'seed': f'{seed}:{CID}:history', 'n': hk}], timeout=3000)[0]
+        if isinstance(shared, dict):
+            mismatches.append(('runner', 'history', 'error', shared.get('runner_error', '')[-800:], ''))
+        else:
+            fresh = runner_batch([{'cmd': 'pipeline', 'mod': r['mod']} for r in shared], timeout=3000)
+            fresh = [f[0] if isinstance(f, list) and f else {'built': False} for f in fresh]
+            for j, (a, b) in enumerate(zip(shared, fresh)):
+                if not (a.get('built') and b.get('built')):
+                    mismatches.append(('runner', 'history', 'not built', str(a.get('build_exc')), str(b.get('build_exc'))))
+                    continue
+                for n in PIPE:
+                    ra, rb = a['runs'].get(n), b['runs'].get(n)
+                    if ra is None or rb is None:
+                        continue
+                    R.case(('history', j, n, json.dumps(a['mod'])[:500]), nontrivial=True, kind='history:module-%d-of-process' % (j + 1))
+                    if ra['ok'] != rb['ok'] or ra.get('bytes') != rb.get('bytes'):
+                        R.violation(f"history-dependence:{n}:{'verdict' if ra['ok'] != rb['ok'] else 'bytes'}:{ra.get('exc')}",
+                                    f'module #{j + 1} run through a fresh {n} stack after {j} other module(s) in the same process behaves '
+                                    'differently from the same module in a fresh process',
+                                    {'history_seed': f'{seed}:{CID}:history', 'n': hk, 'module_index': j, 'stack': n,
+                                     'shared_process': {k: v for k, v in ra.items() if k != 'bytes'},
+                                     'fresh_process': {k: v for k, v in rb.items() if k != 'bytes'},
+                                     'symbols_in_module': a['mod'].get('symbols'), 'how': './check C08 --replay <this file>'})
+            process_pipeline(R, shared, mlref, mismatches)
 
     if proof_broken and not R.violations:
         R.violation('proof-broken', 'Coq proof stage failed',
@@ -367,6 +393,17 @@ def run(tier, seed):
 def replay(path):
     d = json.load(open(path))
     case = d.get('case') or d.get('replay', {}).get('case')
+    hs = d.get('replay', {}).get('history_seed') if isinstance(d.get('replay'), dict) else None
+    if hs is not None:
+        shared = runner_batch([{'cmd': 'history', 'seed': hs, 'n': d['replay']['n']}])[0]
+        fresh = runner_batch([{'cmd': 'pipeline', 'mod': r['mod']} for r in shared])
+        for j, (a, b) in enumerate(zip(shared, fresh)):
+            print(f'module #{j + 1} ({a["mod"].get("symbols")} symbols)')
+            for n in PIPE:
+                ra, rb = a['runs'].get(n), (b[0]['runs'].get(n) if b else None)
+                if ra and rb:
+                    print(f'   {n:36s} same process: {"OK" if ra["ok"] else "FAIL(" + str(ra.get("exc")) + ")":22s} fresh process: {"OK" if rb["ok"] else "FAIL(" + str(rb.get("exc")) + ")"}')
+        return 0
     pm = d.get('replay', {}).get('pipeline_module') if isinstance(d.get('replay'), dict) else None
     if pm is not None:
         req = {'cmd': 'pipeline', **pm['regenerate']} if 'regenerate' in pm else {'cmd': 'pipeline', 'mod': pm}
